@@ -78,6 +78,7 @@ def bind_key(I, state, sym, roles, constraint=None):
         del state.heap[hk]
     for hk in [hk for hk in state.heap if hk[0] == "edge" and (hk[1] == sym or hk[2] == sym)]:
         del state.heap[hk]
+    state.heap.pop(("shape", ("jobid", sym)), None)
     # a role with a trace partition starts from exactly the partition's state (case distinction);
     # everything else starts from the default closed under the states written so far
     saved = state.written
@@ -183,9 +184,27 @@ def m_log_le(I, state, frame, bi, t, args, span):
 # ---------------------------------------------------------------------------------------------
 # strings
 
+SHAPE_KINDS = ("param", "jobid", "before", "after", "histkey")
+
+
+def shape_root(s):
+    """strings whose provenance names exactly one runtime string in the current activation carry
+    path facts ('contains pat' yes/no) in the abstract state, so that every copy sees them"""
+    if s is not None and s[0] == "str" and len(s[1]) == 1:
+        p = list(s[1])[0]
+        if p[0] in SHAPE_KINDS:
+            return ("shape", p)
+    return None
+
+
 def str_of(I, state, av):
     v = deref(I, state, av)
     if v[0] == "str":
+        r = shape_root(v)
+        if r is not None:
+            facts = state.heap.get(r)
+            if facts is not None and facts[0] == "shapefacts" and facts[1]:
+                return ("str", v[1], v[2] | facts[1])
         return v
     return None
 
@@ -212,6 +231,10 @@ def m_str_contains(I, state, frame, bi, t, args, span):
             return [(TRUE, state)]
         if (patc, False) in shape:
             return [(FALSE, state)]
+        sr = shape_root(s)
+        if sr is not None:
+            link = ((sr, ()), "shapefact", (patc, True), (patc, False))
+            return [(("fin", BOOL, BOOL_TOP[2], (link,)), state)]
         a = args[0]
         if a[0] == "ref":
             # find the location that actually holds the string
@@ -381,7 +404,11 @@ def m_opt_as_ref(I, state, frame, bi, t, args, span):
             if 0 in vs:
                 out[0] = ()
             if 1 in vs:
-                out[1] = (ref(a[1], a[2] + (("v", 1), ("f", 0))),)
+                pay = vs[1][0]
+                if pay[0] in ("str", "key"):
+                    out[1] = (pay,)      # value-as-reference
+                else:
+                    out[1] = (ref(a[1], a[2] + (("v", 1), ("f", 0))),)
             return [(adt(OPTION, out), state)]
     return [(TOP, state)]
 
@@ -654,7 +681,7 @@ def m_map_op(I, state, frame, bi, t, args, span):
     L = I.layout
     op = callee_of(t)[0].split("::")[-1]
     a = args[0]
-    k = deref(I, state, args[1])
+    k = str_of(I, state, args[1]) or deref(I, state, args[1])
     sf = self_field_of(I, a)
     val = deref(I, state, args[2]) if len(args) > 2 else None
     tags = frozenset()
@@ -756,6 +783,52 @@ def m_set_iter(I, state, frame, bi, t, args, span):
     if v[0] == "coll":
         return [(("iter", ("av", v[1])), state)]
     return [(("iter", ("av", TOP)), state)]
+
+
+@model("std::boxed::Box::<T>::new_uninit")
+def m_box_new_uninit(I, state, frame, bi, t, args, span):
+    root = ("box", frame.fid, bi)
+    state.heap[root] = TOP
+    return [(ref(root, ()), state)]
+
+
+@model("std::boxed::box_assume_init_into_vec_unsafe")
+def m_box_into_vec(I, state, frame, bi, t, args, span):
+    v = deref(I, state, args[0])
+    elem = None
+    if v[0] == "adt" and v[1] == "array":
+        for f in adt_variants(v)[0]:
+            elem = join(elem, anonymise(f))
+        return [(coll(elem), state)]
+    return [(coll(TOP), state)]
+
+
+@model("std::vec::Vec::<T, A>::pop", "std::collections::VecDeque::<T, A>::pop_front", "std::collections::VecDeque::<T, A>::pop_back",
+       "core::slice::<impl [T]>::last", "core::slice::<impl [T]>::last_mut", "core::slice::<impl [T]>::first")
+def m_vec_pop(I, state, frame, bi, t, args, span):
+    v = deref(I, state, args[0])
+    res = [(adt(OPTION, {0: ()}), state.copy())]
+    if v[0] == "coll":
+        if v[1] is not None:
+            for (e, st) in instantiate(I, state.copy(), frame, bi, ("av", v[1]), span):
+                res.append((some(e), st))
+    else:
+        res.append((some(TOP), state.copy()))
+    return res
+
+
+@model("std::iter::Iterator::all", "std::iter::Iterator::any")
+def m_iter_all(I, state, frame, bi, t, args, span):
+    it = deref(I, state, args[0])
+    st = state
+    if it[0] == "iter":
+        from interp import join_state
+        merged = state.copy()
+        for (e, s1) in instantiate(I, state.copy(), frame, bi, it[1], span):
+            for (rv, s2) in call_closure(I, s1, frame, bi, args[1], [e], span):
+                merged = join_state(merged, s2)
+        st = merged
+    return [(BOOL_TOP, st)]
 
 
 @model("std::vec::Vec::<T, A>::is_empty", "std::collections::VecDeque::<T, A>::is_empty",
